@@ -32,6 +32,7 @@ def run(ctx):
     c09_2(ctx)
     c09_shapes(ctx)
     c09_3(ctx)
+    c09_4(ctx)
 
 
 def _coin_aggs(b):
@@ -271,3 +272,45 @@ def c09_3(ctx):
             s2 = str(r2)
             ok = "parse_amount" in s2 and "check_nil" in str(f) and s2.count("first") >= 4
         ctx.ob(R, "parse_coin_spend", ok, "a coin spend is (parent puzzle amount solution) with a strict nil terminator", found=[str(x)[:200] for x in got][:1])
+
+
+FAST_PATHS = ("additions_and_removals::additions_and_removals", "run_block_generator::get_coinspends_for_trusted_block",
+              "run_block_generator::get_coinspends_with_conditions_for_trusted_block", "get_puzzle_and_solution::get_puzzle_and_solution_for_coin")
+
+
+def c09_4(ctx):
+    """'for every block full validation accepts' the helpers answer: so they may refuse for cost only where full validation
+    does under every flag set.  Full validation's byte charge depends on the fork flags (raw length vs interned size) and its
+    condition charges on COST_CONDITIONS; the only charge common to all configurations is CLVM execution.  Hence every amount
+    a fast path subtracts from its budget must be the cost returned by a run_program call, and the budget starts at
+    max_block_cost_clvm; there is no other cost-based refusal."""
+    R = "C09.4"
+    fb = ctx.fb
+    n = 0
+    for suffix in FAST_PATHS:
+        fs = [f for p, f in fb.fns.items() if (p == CC + suffix or p.startswith(CC + suffix + "::<")) and f.e["kind"] == "Fn"]
+        if len(fs) != 1:
+            ctx.missing(R, "charges:" + suffix.split("::")[-1], "function not found")
+            continue
+        b = Body(fs[0], fb)
+        ctx.touched(b.path)
+        bad = []
+        for bi, nm, t in b.calls():
+            fl = U.flat(nm)
+            if fl.endswith("::subtract_cost"):
+                n += 1
+                amt = strip_all(b.operand_term(t["args"][1]))
+                if not (U.has_call(amt, "run_program") and not any(isinstance(x, tuple) and x and x[0] == "bin" for x in subterms(amt))):
+                    bad.append("subtract_cost(%s) at %s" % (show(amt)[:100], b.where(bi)))
+        # no explicit cost comparison other than through subtract_cost
+        for node in b.edge_info:
+            if b.edge_info[node][0] not in b.reach:
+                continue
+            t_, lab = b.edge_condition(node)
+            s_ = str(apnf.N(t_))
+            if ("cost_per_byte" in s_ or "max_block_cost" in s_ or "max_cost" in s_) and s_.startswith(("('Lt'", "('Gt'", "('Le'", "('Ge'")):
+                bad.append("cost comparison %s at %s" % (s_[:100], b.where(b.edge_info[node][0])))
+        ctx.ob(R, "charges:" + suffix.split("::")[-1], not bad,
+               "%s subtracts only CLVM execution costs returned by run_program from its budget" % suffix.split("::")[-1],
+               found=bad[:3] or None, where=fs[0].sp)
+    ctx.floor(R, "subtract_cost sites in the trusted fast paths", n, 2)
